@@ -1,7 +1,9 @@
 (* Several documents, directory / file renames and deletes: the document bookkeeping of
    crates/trust-runtime/src/web/ide.rs (open_source, apply_source, rename_entry, delete_entry) as
    called sequentially.  A path is (directory, file); renaming a directory moves exactly the
-   entries of that directory and bumps their versions, everything else is untouched. *)
+   entries of that directory and bumps their versions, everything else is untouched.  Directories exist on their
+   own (md_dirs): deleting or moving the last file of a directory leaves the empty directory behind, and moving a file
+   into a directory that does not exist creates it. *)
 From Coq Require Import List Bool Arith.
 From TP Require Import Model.WebIde.
 Import ListNotations.
@@ -12,8 +14,9 @@ Fixpoint klookup {A} (l : list (key * A)) (k : key) : option A :=
   match l with [] => None | (k', v) :: l' => if key_eqb k k' then Some v else klookup l' k end.
 Definition kremove {A} (l : list (key * A)) (k : key) : list (key * A) := filter (fun e => negb (key_eqb k (fst e))) l.
 Definition kset {A} (l : list (key * A)) (k : key) (v : A) : list (key * A) := (k, v) :: kremove l k.
-Record mstate := { md_disk : list (key * content); md_docs : list (key * doc) }.
-Definition dir_exists (s : mstate) (d : nat) : bool := existsb (fun e => Nat.eqb (fst (fst e)) d) (md_disk s).
+Record mstate := { md_disk : list (key * content); md_docs : list (key * doc); md_dirs : list nat }.
+Definition dir_exists (s : mstate) (d : nat) : bool := existsb (Nat.eqb d) (md_dirs s).
+Definition dremove (l : list nat) (d : nat) : list nat := filter (fun x => negb (Nat.eqb d x)) l.
 Definition bump (d : doc) : doc := {| d_content := d_content d; d_version := S (d_version d) |}.
 Definition move_dir {A} (f : A -> A) (l : list (key * A)) (d d' : nat) : list (key * A) :=
   map (fun e => if Nat.eqb (fst (fst e)) d then ((d', snd (fst e)), f (snd e)) else e) l.
@@ -27,7 +30,7 @@ Definition mstep (s : mstate) (o : mcall) : mstate * mout :=
       match klookup (md_disk s) k with
       | None => (s, MNotFound)
       | Some seen => let d := sync (klookup (md_docs s) k) seen in
-                     ({| md_disk := md_disk s; md_docs := kset (md_docs s) k d |}, MVersion (d_version d) seen)
+                     ({| md_disk := md_disk s; md_docs := kset (md_docs s) k d; md_dirs := md_dirs s |}, MVersion (d_version d) seen)
       end
   | MApply k e c =>
       match klookup (md_disk s) k with
@@ -35,26 +38,28 @@ Definition mstep (s : mstate) (o : mcall) : mstate * mout :=
       | Some seen =>
           let d := sync (klookup (md_docs s) k) seen in
           if Nat.eqb (d_version d) e then
-            ({| md_disk := kset (md_disk s) k c; md_docs := kset (md_docs s) k {| d_content := c; d_version := S (d_version d) |} |}, MVersion (S (d_version d)) c)
-          else ({| md_disk := md_disk s; md_docs := kset (md_docs s) k d |}, MConflict (d_version d))
+            ({| md_disk := kset (md_disk s) k c; md_docs := kset (md_docs s) k {| d_content := c; d_version := S (d_version d) |}; md_dirs := md_dirs s |}, MVersion (S (d_version d)) c)
+          else ({| md_disk := md_disk s; md_docs := kset (md_docs s) k d; md_dirs := md_dirs s |}, MConflict (d_version d))
       end
-  | MExternal k c => match klookup (md_disk s) k with None => (s, MNotFound) | Some _ => ({| md_disk := kset (md_disk s) k c; md_docs := md_docs s |}, MDone) end
+  | MExternal k c => match klookup (md_disk s) k with None => (s, MNotFound) | Some _ => ({| md_disk := kset (md_disk s) k c; md_docs := md_docs s; md_dirs := md_dirs s |}, MDone) end
   | MRenameDir d d' =>
       if negb (dir_exists s d) then (s, MNotFound)
       else if dir_exists s d' then (s, MExists)
-      else ({| md_disk := move_dir (fun c => c) (md_disk s) d d'; md_docs := move_dir bump (md_docs s) d d' |}, MDone)
+      else ({| md_disk := move_dir (fun c => c) (md_disk s) d d'; md_docs := move_dir bump (md_docs s) d d'; md_dirs := d' :: dremove (md_dirs s) d |}, MDone)
   | MRenameFile k k' =>
       match klookup (md_disk s) k, klookup (md_disk s) k' with
       | None, _ => (s, MNotFound)
       | Some _, Some _ => (s, MExists)
       | Some c, None =>
           ({| md_disk := kset (kremove (md_disk s) k) k' c;
-              md_docs := match klookup (md_docs s) k with Some d => kset (kremove (md_docs s) k) k' (bump d) | None => md_docs s end |}, MDone)
+              md_docs := match klookup (md_docs s) k with Some d => kset (kremove (md_docs s) k) k' (bump d) | None => md_docs s end;
+              md_dirs := if dir_exists s (fst k') then md_dirs s else fst k' :: md_dirs s |}, MDone)
       end
-  | MDelete k => match klookup (md_disk s) k with None => (s, MNotFound) | Some _ => ({| md_disk := kremove (md_disk s) k; md_docs := kremove (md_docs s) k |}, MDone) end
+  | MDelete k => match klookup (md_disk s) k with None => (s, MNotFound) | Some _ => ({| md_disk := kremove (md_disk s) k; md_docs := kremove (md_docs s) k; md_dirs := md_dirs s |}, MDone) end
   | MDeleteDir d =>
       if negb (dir_exists s d) then (s, MNotFound)
-      else ({| md_disk := filter (fun e => negb (Nat.eqb (fst (fst e)) d)) (md_disk s); md_docs := filter (fun e => negb (Nat.eqb (fst (fst e)) d)) (md_docs s) |}, MDone)
+      else ({| md_disk := filter (fun e => negb (Nat.eqb (fst (fst e)) d)) (md_disk s); md_docs := filter (fun e => negb (Nat.eqb (fst (fst e)) d)) (md_docs s);
+            md_dirs := dremove (md_dirs s) d |}, MDone)
   end.
 Fixpoint mrun (s : mstate) (os : list mcall) : list mout :=
   match os with [] => [] | o :: os' => let '(s', out) := mstep s o in out :: mrun s' os' end.
